@@ -26,6 +26,26 @@ with warnings.catch_warnings():
         def __init__(self, child):
             object.__setattr__(self, "child", child)
 
+    import dataclasses as _dc
+
+    @p.expr_dataclass()
+    class UPostInit(p.Expression):
+        """A field that __init__ does not take (init=False): filled in by __post_init__, part of equality, hash and the pickled state."""
+        child: p.ExpressionT
+        label: str = _dc.field(init=False)
+
+        def __post_init__(self):
+            object.__setattr__(self, "label", f"<{self.child}>")
+
+    @p.expr_dataclass()
+    class UPostInitDefault(p.Expression):
+        """As UPostInit, with a class-level default for the init=False field."""
+        child: p.ExpressionT
+        weight: int = _dc.field(init=False, default=0)
+
+        def __post_init__(self):
+            object.__setattr__(self, "weight", 3 if isinstance(self.child, p.Variable) else 5)
+
     class LegacyChildOfDecorated(UBase):
         """Undecorated subclass of a decorated class that keeps the inherited fields."""
         mapper_method = "map_legacy_child"
